@@ -761,6 +761,8 @@ def _small_c04(tier, seed, shard=(0, 1)):
     cases.append({"headers": [{"words": 10}, {"words": 0}, {"words": 33, "loops": [{"at": 5, "fine": 0, "coarse": 2, "duration": 9999}], "loop_type": 0}],
                   "stereo": True, "into_used_directory": True})
     cases.append({"headers": [{"words": 40}, {"words": 1}, {"words": 0}], "stereo": "very-unequal"})
+    # files whose ENCODED length is an exact multiple of a power-of-two block (64 KiB, 4 KiB): 88 header bytes + 2 bytes per frame
+    cases.append({"headers": [{"words": (65536 - 88) // 2}, {"words": (2 * 65536 - 88) // 2}, {"words": (65536 - 88) // 2 - 1}, {"words": (4096 - 88) // 2}, {"words": (8192 - 88) // 2}]})
     # L/R halves whose lengths differ by one frame / a few frames, either way round; an empty half
     cases.append({"headers": [{"words": 7}], "pairs": [(34, 33), (33, 34), (3001, 3000), (3000, 3001), (1, 2), (2, 1), (1, 0), (0, 1)]})
     cases.append({"headers": [{"words": 7}], "pairs": [(2048, 2049), (2049, 2048), (4097, 4096), (5000, 5003)]})
